@@ -710,6 +710,13 @@ class Frame:
             l, r = test.left, test.comparators[0]
             lv = self.lvalue(l, env)
             rc = self.const_of(r, env)
+            if not isinstance(lv, AV) and isinstance(self.lvalue(r, env), AV) and self.const_of(l, env) is not NOCONST \
+                    and not isinstance(op, (ast.In, ast.NotIn)):
+                # constant on the left: mirror the comparison
+                mirror = {ast.Lt: ast.Gt, ast.Gt: ast.Lt, ast.LtE: ast.GtE, ast.GtE: ast.LtE}
+                l, r = r, l
+                lv, rc = self.lvalue(l, env), self.const_of(r, env)
+                op = mirror.get(type(op), type(op))()
             if isinstance(lv, AV):
                 if isinstance(op, (ast.Is, ast.IsNot)) and rc is not NOCONST and rc is None:
                     isnone = isinstance(op, ast.Is) == truth
